@@ -101,6 +101,27 @@ def prefix_times_alphabet(rng, alpha):
     return out
 
 
+def rejected_then_valid():
+    """After every valid prefix: a config the manager must refuse, then every kind of continuation - a refused append
+    leaves no trace in what is accepted afterwards."""
+    out = []
+    bads = [(4, 5, 2), (4, 13, 7), (4, 0, 1), (1, -1, 1), (3, 2, 3), (0, 1, 1), (2, 0, 1)]
+    goods = [(1, 3, 1), (2, 2, 1), (3, 5, 2), (3, 4, 2), (4, 4, 2), (4, 1, 1)]
+    for pre in PREFIXES:
+        for bad in bads:
+            for good in goods:
+                r = Recorder()
+                for p in pre:
+                    r.append(cfg_rec(*p))
+                r.append(cfg_rec(*bad))
+                r.append(cfg_rec(*good))
+                r.has_more()
+                while r.next() is not None:
+                    pass
+                out.append(r.trace(kind="rejected_then_valid"))
+    return out
+
+
 def all_sequences(alpha, maxlen):
     """Every config sequence of length <= maxlen; after each append that was accepted
     nothing else happens; at the end next() until exhausted (+ one refusal)."""
